@@ -43,7 +43,14 @@ RECURSIVE RExpr(_, _, _)
 RExpr(s, i, d) == IF d = 0 \/ RandInt(s, i, 4) = 0 THEN Leaf[1 + RandInt(s, i + 7919, Len(Leaf))].e
                   ELSE IF RandInt(s, i + 31, 8) = 0 THEN Un(IF RandInt(s, i + 3, 2) = 0 THEN "-" ELSE "~", RExpr(s, 2 * i, d - 1))
                   ELSE Bin(OpSeq[1 + RandInt(s, i + 104729, Len(OpSeq))], RExpr(s, 2 * i, d - 1), RExpr(s, 2 * i + 1, d - 1))
-RandCases == { [t |-> <<SPrint(RExpr(SeedProp * 4096 + k, 1, 3))>>, c |-> "random-nested", key |-> "rand" \o IntStr(SeedProp) \o "." \o IntStr(k)] : k \in 1..NRandom }
+(* string + boolean is the open finding of C02 (known_findings.txt): random expressions in which a `+` has an operand that
+   yields a boolean are left out, so that the finding's pattern stays confined to its own six depth-1 cells *)
+MayBeBool(e) == (e.k = "bin" /\ e.op \in {"<", "<=", ">", ">=", "==", "!="}) \/ (e.k = "un" /\ e.op = "!")
+RECURSIVE PlusBool(_)
+PlusBool(e) == IF e.k \notin {"bin", "un"} THEN FALSE
+               ELSE (e.k = "bin" /\ e.op = "+" /\ (MayBeBool(e.c[1]) \/ MayBeBool(e.c[2]))) \/ \E i \in 1..Len(e.c) : PlusBool(e.c[i])
+RandCases == { x \in { [t |-> <<SPrint(RExpr(SeedProp * 4096 + k, 1, 3))>>, c |-> "random-nested", key |-> "rand" \o IntStr(SeedProp) \o "." \o IntStr(k)] : k \in 1..NRandom } :
+               ~PlusBool(x.t[1].c[1]) }
 
 Cases == SetToSeq(BinCases \cup UnCases \cup RandCases)
 Programs == [i \in 1..Len(Cases) |-> LayoutProg(Cases[i].t, 1)]
